@@ -275,6 +275,37 @@ func (p c16) whenSharedGrouping(c *core.Ctx) {
 	}
 }
 
+// whenCircular: conditions that depend on themselves, directly or through one another. What such a schema means is not the point; a
+// read of it ends (with data or with an error) and does not take the process down.
+func (p c16) whenCircular(c *core.Ctx) {
+	for _, sc := range []struct{ name, body, doc string }{
+		{"list-on-itself", "list l { when \"../l/k='a'\"; key k; leaf k { type string; } } leaf q { type string; }", `{"l":[{"k":"a"},{"k":"b"}],"q":"keep"}`},
+		{"two-leaves", "leaf a { when \"b=1\"; type int32; } leaf b { when \"a=1\"; type int32; } leaf q { type string; }", `{"a":1,"b":1,"q":"keep"}`},
+		{"leaf-on-itself", "leaf a { when \"a=1\"; type int32; } leaf q { type string; }", `{"a":1,"q":"keep"}`},
+		{"two-containers", "container c { when \"../d/x=1\"; leaf y { type int32; } } container d { when \"../c/y=1\"; leaf x { type int32; } } leaf q { type string; }", `{"c":{"y":1},"d":{"x":1},"q":"keep"}`},
+		{"three-leaves", "leaf a { when \"b=1\"; type int32; } leaf b { when \"c=1\"; type int32; } leaf c { when \"a=1\"; type int32; } leaf q { type string; }", `{"a":1,"b":1,"c":1,"q":"keep"}`},
+		{"entry-on-sibling-entries", "container w { list l { when \"../l/v=1\"; key k; leaf k { type string; } leaf v { type int32; } } } leaf q { type string; }", `{"w":{"l":[{"k":"a","v":1},{"k":"b","v":2},{"k":"c","v":1}]},"q":"keep"}`},
+	} {
+		m, err := parser.LoadModuleFromString(nil, "module m { namespace \"urn:m\"; prefix m; revision 2020-01-01; "+sc.body+" }")
+		if err != nil {
+			c.Count("circular_when_rejected_at_load")
+			continue
+		}
+		c.Eval()
+		c.Shape("when-circular/%s", sc.name)
+		n, _ := nodeutil.ReadJSON(sc.doc)
+		var rerr error
+		if c.Guard("circular when "+sc.name, func() { _, rerr = nodeutil.WriteJSON(node.NewBrowser(m, n).Root()) }) {
+			continue
+		}
+		if rerr != nil {
+			c.Count("circular_when_read_error")
+		} else {
+			c.Count("circular_when_read_ok")
+		}
+	}
+}
+
 // whenOperandGuarded: the operand of a condition is itself under a condition; and a leaf under a condition read directly
 // (Find + Get, GetValue) instead of as part of its container.
 func (p c16) whenOperandGuarded(c *core.Ctx) {
@@ -348,6 +379,9 @@ func (p c16) Run(c *core.Ctx, idx int) {
 	}
 	if idx%97 == 3 {
 		p.whenSharedGrouping(c)
+	}
+	if idx%97 == 4 {
+		p.whenCircular(c)
 	}
 	if idx%97 == 0 {
 		p.usesWhenOnContainer(c)
